@@ -342,7 +342,17 @@ def run_job(job, rec):
                     continue
                 tol_loc = (5e-2 if loose else 1e-4) * sd * al
                 track(name + ":cov_mode", (E2.mode - (al * E.mode + be)) / (sd * al))
-                if loose:
+                tied = np.unique(x).size < 0.9 * x.size
+                if loose and tied:
+                    # quantised data leave the six-parameter unimodal family under-determined: re-fits with the same likelihood to 1e-3 can differ by a
+                    # third of the peak (plateau vs peak over a few lattice points).  For such samples only the quality of the fit is required to follow the data.
+                    ll1 = float(np.mean(np.log(np.asarray(E(x), float))))
+                    ll2 = float(np.mean(np.log(np.asarray(E2(al * x + be), float)))) + np.log(al)
+                    track(name + ":cov_loglik_tied", ll2 - ll1)
+                    rec.count("unimodal_covariance:tied_sample_fit_quality_only")
+                    rec.check(abs(ll2 - ll1) <= 2e-2, "fit-quality-not-covariant",
+                              lambda: f"{name}: mean log-density of the (tied) data under the fit is {ll1!r}, under the re-fit of a*s+b it is {ll2!r}", cctx)
+                elif loose:
                     # the location parameter of the flexible unimodal model is weakly determined when the
                     # top of the density is flat; compare the densities instead of the parameter
                     d2 = float(E2(al * E.mode + be)) / float(E2(E2.mode))
